@@ -42,13 +42,13 @@ type c12Env struct {
 	px    *Proxy
 }
 
-func c12NewEnv() *c12Env {
+func c12NewEnv(extra ...string) *c12Env {
 	e := &c12Env{}
 	world.NewIdP()
 	e.up = world.NewUpstream("u")
 	e.redis = world.NewRedis()
-	e.px = mustProxy(&ProxyCfg{Flags: append(baseFlags(e.up.URL()), "--email-domain=*", "--cookie-secure=false",
-		"--cookie-refresh=1m", "--cookie-expire=1h", "--pass-access-token=true"), Redis: e.redis})
+	e.px = mustProxy(&ProxyCfg{Flags: append(append(baseFlags(e.up.URL()), "--email-domain=*", "--cookie-secure=false",
+		"--cookie-refresh=1m", "--cookie-expire=1h", "--pass-access-token=true"), extra...), Redis: e.redis})
 	return e
 }
 
@@ -72,6 +72,28 @@ func c12Prepare(e *c12Env, sc c12Scenario, seed int64) (idp *world.IdP, cookie, 
 	switch sc.Behaviour {
 	case "no-refresh-token":
 		idp.NoRefreshToken = true
+	case "refresh-nonce-mismatch":
+		// (proxy built with --insecure-oidc-skip-nonce=false) the refresh answer verifies but its
+		// nonce is not the session's and it names somebody else: validation of the refreshed
+		// session fails, so nobody may be served under that identity
+		idp.IDTokenSpec = func(a *world.AuthRequest, u *world.User, refresh bool) *world.TokenSpec {
+			if !refresh {
+				return nil
+			}
+			other := "not-the-login-nonce"
+			return &world.TokenSpec{Nonce: &other, Claims: map[string]any{"sub": "mallory-sub", "email": "mallory@evil.example", "preferred_username": "mallory"}}
+		}
+	case "refresh-bad-id-token":
+		// the refresh grant is answered with an ID token that does not verify (signed by another
+		// key) and names somebody else: the answer must be discarded, nobody may ever be served
+		// under that identity — not even a concurrent request that reloads the store while the
+		// refreshing request is still deciding
+		idp.IDTokenSpec = func(a *world.AuthRequest, u *world.User, refresh bool) *world.TokenSpec {
+			if !refresh {
+				return nil
+			}
+			return &world.TokenSpec{Signer: "other", Claims: map[string]any{"sub": "mallory-sub", "email": "mallory@evil.example", "preferred_username": "mallory"}}
+		}
 	}
 	e.redis.M.FlushAll()
 	e.redis.M.SetTime(world.Now())
@@ -217,7 +239,14 @@ func c12Exec(e *c12Env, sc c12Scenario, x *explore.Exec, prune bool, seed int64)
 		}
 	}
 	res.contended = obt > 1
-	add := func(key, msg string) { res.violations = append(res.violations, "C12/"+key+"\x00"+msg) }
+	add := func(key, msg string) {
+		if sc.Behaviour == "refresh-nonce-mismatch" && (key == "served-under-foreign-identity" || key == "unknown-token") {
+			// one root cause, own key: the refreshed session is saved BEFORE it is validated
+			// (pkg/middleware/stored_session.go refreshSession -> Save, then validateSession)
+			key = "peer-served-from-refresh-answer-that-failed-validation"
+		}
+		res.violations = append(res.violations, "C12/"+key+"\x00"+msg)
+	}
 	switch out.Aborted {
 	case "deadlock":
 		add("deadlock", fmt.Sprintf("no thread enabled, blocked: %v", out.Blocked))
@@ -238,6 +267,9 @@ func c12Exec(e *c12Env, sc c12Scenario, x *explore.Exec, prune bool, seed int64)
 	upTok := map[string]string{}
 	for _, r := range e.up.Take() {
 		upTok[r.Header.Get("X-Req")] = r.Header.Get("X-Forwarded-Access-Token")
+		if em := r.Header.Get("X-Forwarded-Email"); em != "alice@example.com" {
+			add("served-under-foreign-identity", fmt.Sprintf("request %s reached the upstream as %q (user %q); the session belongs to alice@example.com and the only other identity in play comes from a refresh answer that does not verify", r.Header.Get("X-Req"), em, r.Header.Get("X-Forwarded-User")))
+		}
 	}
 	newToks := []string{}
 	for _, t := range idp.IssuedAccessTokens() {
@@ -250,7 +282,13 @@ func c12Exec(e *c12Env, sc c12Scenario, x *explore.Exec, prune bool, seed int64)
 	if sc.Behaviour != "rotate" {
 		wantGrants = 0
 	}
-	if idp.Grants != wantGrants {
+	if sc.Behaviour == "refresh-bad-id-token" || sc.Behaviour == "refresh-nonce-mismatch" {
+		// the provider grants (and rotates) once; the proxy discards the answer, later attempts
+		// present the consumed token and are refused
+		if idp.Grants > 1 {
+			add("refresh-count", fmt.Sprintf("%d successful refresh grants", idp.Grants))
+		}
+	} else if idp.Grants != wantGrants {
 		add("refresh-count", fmt.Sprintf("%d successful refresh grants at the identity provider for one stale session shared by %d concurrent requests (expected %d)", idp.Grants, sc.Threads, wantGrants))
 	}
 	for i := 0; i < sc.Threads; i++ {
@@ -263,6 +301,11 @@ func c12Exec(e *c12Env, sc c12Scenario, x *explore.Exec, prune bool, seed int64)
 		parts = append(parts, fmt.Sprintf("%d:%d:%v", i, r.Status, hit))
 		if r.Panic != nil {
 			add("panic", fmt.Sprintf("request %d: %v at %s", i, r.Panic, r.PanicSite()))
+			continue
+		}
+		if sc.Behaviour == "refresh-nonce-mismatch" && !hit && (r.Status == 403 || r.Status == 401) {
+			// the refresh answer fails validation: treating the request as unauthenticated is the
+			// prescribed outcome (a peer may still be served after re-validating the old session)
 			continue
 		}
 		if r.Status != 200 || !hit {
@@ -601,7 +644,7 @@ func init() {
 				prune bool
 			}
 			var jobs []job
-			for _, beh := range []string{"rotate", "refresh-fails", "no-refresh-token"} {
+			for _, beh := range []string{"rotate", "refresh-fails", "no-refresh-token", "refresh-bad-id-token"} {
 				jobs = append(jobs, job{c12Scenario{Threads: 2, Behaviour: beh}, 1000, true})
 				if c.Quick() {
 					if beh == "rotate" {
@@ -614,13 +657,18 @@ func init() {
 					jobs = append(jobs, job{c12Scenario{Threads: 2, Behaviour: beh}, 1000, false}) // cross-check of the pruning abstraction
 				}
 			}
-			c.Info["scenarios"] = len(jobs)
+			c.Info["scenarios"] = len(jobs) + 1
 			for _, j := range jobs {
 				if c.Expired() {
 					return
 				}
 				c12Explore(c, e, j.sc, j.bound, j.prune)
 			}
+			// nonce verification on: a refresh answer whose validation fails after it was saved
+			en := c12NewEnv("--insecure-oidc-skip-nonce=false")
+			defer en.up.Close()
+			defer en.redis.Close()
+			c12Explore(c, en, c12Scenario{Threads: 2, Behaviour: "refresh-nonce-mismatch"}, 1000, true)
 		},
 		post: func(c *Ctx) {
 			if c.Counters["nonvacuity_lock_contended"] == 0 {
